@@ -90,6 +90,7 @@ func runC13(r *ev.Run) {
 			rep("ivf.train-error", err.Error())
 			return
 		}
+		scribbleOver(train) // the training buffers are the caller's (trainRaw keeps the values)
 		st0 := comet.VerifIVFState(idx)
 		for ci2, c := range st0.Centroids {
 			for _, x := range c {
@@ -210,6 +211,43 @@ func runC13(r *ev.Run) {
 				}
 			}
 		}
+		// several queries in ONE search at partial probe: every query is probed in ITS OWN nearest clusters, so the
+		// answer is the aggregate of the answers the same queries get one at a time (metamorphic, as in C02)
+		multiProbe := func() {
+			if nlist < 2 || len(m.live) == 0 {
+				return
+			}
+			nq := 2 + rng.IntN(2)
+			var qs [][]float32
+			for i := 0; i < nq; i++ {
+				q := vg.query()
+				if live := m.liveIDs(); i > 0 && rng.IntN(2) == 0 {
+					q = cloneF32(m.raw[live[rng.IntN(len(live))]]) // right at a stored vector: usually another cluster than q0
+				}
+				qs = append(qs, q)
+			}
+			pN := 1 + rng.IntN(nlist-1)
+			o := vecProbeOpts{NProbes: pN}
+			rule := []comet.ScoreAggregationKind{comet.SumAggregation, comet.MaxAggregation, comet.MeanAggregation}[rng.IntN(3)]
+			var per [][]comet.VectorResult
+			pqs := make([][]float32, 0, nq)
+			for _, q := range qs {
+				res, err := s.search(o).WithQuery(cloneF32(q)).WithK(0).Execute()
+				if err != nil {
+					rep("ivf.search-error", err.Error())
+					return
+				}
+				per = append(per, res)
+				pqs = append(pqs, cloneF32(q))
+			}
+			got, err := s.search(o).WithQuery(pqs...).WithK(0).WithScoreAggregation(rule).Execute()
+			if err != nil {
+				rep("ivf.search-error", "multi-query: "+err.Error())
+				return
+			}
+			checkMultiQuery(rep, "ivf", rule, per, got, 0)
+			r.Count("probes:multi-query-at-partial-probe", 1)
+		}
 		nOps := 6 + rng.IntN(30)
 		for op := 0; op < nOps; op++ {
 			c := rng.IntN(10)
@@ -270,6 +308,7 @@ func runC13(r *ev.Run) {
 			}
 			if op%2 == 1 || op == nOps-1 {
 				probe()
+				multiProbe()
 			}
 		}
 		if r.WantSample() && ci%40 == 0 {
